@@ -227,6 +227,51 @@ pub fn run(rep: &mut Rep) {
             }
         }
     }
+    // one subscribe() with several topic filters, some granted and some refused by the broker: the stream lives on and
+    // receives everything carrying its identifier
+    rep.note("partially refused subscription: subscribe() with three topic filters, SUBACK reason codes rotating through granted QoS 0/1/2 and every refusal code in every position; messages before the SUBACK, before stream() and after it: all reach the stream, which does not end");
+    for ridx in 0..12usize {
+        for when in 0..2u8 {
+            let id = format!("partial:{ridx}:{when}");
+            bidx += 1;
+            if !rep.take(bidx, &id) {
+                continue;
+            }
+            let mut w = World::boot(WorldCfg { seed: rep.seed, ..Default::default() });
+            w.multi_filter = true;
+            let s0 = w.start(0, Kind::Ping);
+            w.settle_check();
+            w.pingresp();
+            w.settle_check();
+            let _ = s0;
+            // operation number 1: three filters
+            let s = w.start(1, Kind::Sub);
+            w.settle_check();
+            let sid = w.sub_id_of(s).unwrap_or(1);
+            w.in_publish(0, 0, false, &[sid], false);
+            w.settle_check();
+            w.deliver_ack(s, 1, ridx, (ridx % 2) as u8);
+            w.settle_check();
+            if when == 0 {
+                w.in_publish(1, 3, false, &[sid], false);
+                w.settle_check();
+            }
+            w.take_stream(s);
+            w.settle_check();
+            for q in 0..3u8 {
+                w.in_publish(q, 10 + q as u16, false, &[sid], false);
+                w.settle_check();
+            }
+            finish(&mut w);
+            rep.add("evaluations", 1);
+            rep.add("partially_refused_subscription_cases", 1);
+            rep.distinct(&("partial", ridx, when));
+            if super::harvest(rep, &mut w, &id) == 0 {
+                rep.sample(|| format!("{id}: SUBACK {:?}: {} items reached the stream", w.sim.ops[s].out.as_ref().map(|o| o.brief()), w.counters.stream_items_checked));
+            }
+            super::add_counters(rep, &w);
+        }
+    }
     // rolling subscriptions: streams come and go for a long time (the client's table of registrations is appended to at
     // the back and pruned at the front and in the middle)
     rep.note("rolling subscriptions: K in {1,2,3,4,5,8} live streams for 40 rounds; each round the oldest (or a PRNG-chosen) stream is dropped, the broker sends a late PUBLISH for it, the application subscribes again, and one message per live stream (plus one carrying two identifiers) must reach exactly its stream");
